@@ -26,6 +26,7 @@
   On the two boundary lines `ℓ = 0`, `ℓ = c·L` the source takes the slanted-side formula; the adjacent cap formula
   has the same value there (`coneProfile_boundary_a`, `coneProfile_boundary_b`), so the profile is continuous.
 -/
+import PolyVerif.Model.SdfVarLine
 import PolyVerif.Props.C19
 import PolyVerif.Lemmas.RoundedCone
 import Mathlib.Analysis.Convex.Join
@@ -513,10 +514,16 @@ example : RoundedCone (⟨0, 0, 0⟩ : P3) ⟨1, 0, 0⟩ 2 1 ⟨-3, 0, 0⟩ = 1 
 
 /-! ### VarryingThicknessLine = Union of the rounded cones of consecutive line points -/
 
-/-- line.go:22 `VarryingThicknessLine` (hand transcription of its loop; not regenerated, not corresponded):
-    the cones of consecutive `(point, radius)` pairs, handed to `Union` -/
+/-- line.go:22 `VarryingThicknessLine`: the cones of consecutive `(point, radius)` pairs, handed to `Union`.
+    This is the model `SdfVarLine.cones` (hand transcription of the loop, run at Float by the driver and compared with
+    the Go function by the `c19.varline` lines) at the scalar ℝ — see `varLineCones_eq_model`. -/
 noncomputable def varLineCones (pts : List (P3 × ℝ)) : List Field :=
   (pts.zip pts.tail).map (fun se => RoundedCone se.1.1 se.2.1 se.1.2 se.2.2)
+
+theorem varLineCones_eq_model (pts : List (P3 × ℝ)) : varLineCones pts = SdfVarLine.cones pts := rfl
+
+theorem varLine_eq_model (pts : List (P3 × ℝ)) :
+    SdfOps.Union (varLineCones pts) = SdfVarLine.VarryingThicknessLine pts := rfl
 
 theorem varLine_lipschitz (pts : List (P3 × ℝ)) (u : Field) (h : SdfOps.Union (varLineCones pts) = some u) :
     Lipschitz1 u := by
